@@ -179,7 +179,7 @@ def program_strategy():
 # codes for the late-definition histories: one nobody has a class for, one of the library's, one of the application's
 LATE_CODES = {'fresh': 2960, 'builtin': -32000, 'application': 2002}
 
-ERROR_CLS = ['JsonRpcError', 'JsonRpcError', 'PlainBase', 'IndepBase', 'CodedBase']
+ERROR_CLS = ['JsonRpcError', 'JsonRpcError', 'PlainBase', 'IndepBase', 'CodedBase', 'MetaBase']
 
 
 class C05(Check):
@@ -192,7 +192,7 @@ class C05(Check):
         "constructors from generated arguments (params none/list/tuple/dict incl. empty, ids over integers/strings/null, results and "
         "error data over nested JSON values incl. null, 4299-digit integers, floats, control and astral characters; errors of the base "
         "class, every built-in typed class, harness-registered classes, unregistered codes incl. 0 and negatives, empty messages; "
-        "batches of 0..5) x supplied error base class {JsonRpcError, plain subclass, subclass with a code of its own, documented get_error_cls override}. Oracle: a "
+        "batches of 0..5) x supplied error base class {JsonRpcError, plain subclass, subclass with a code of its own, documented get_error_cls override, hierarchy with a registry of its own (sub-metaclass)}. Oracle: a "
         "reference serialiser computes the expected wire dict from the constructor arguments; to_json, json.dumps(to_json()), "
         "json.dumps(obj, cls=pjrpc.JSONEncoder) and the server encoder must all give it; from_json(json.loads(text)) must give equal "
         "fields, the expected error class, and an identical second to_json. non-trivial = non-scalar payload, or an edge (null result, "
@@ -209,7 +209,7 @@ class C05(Check):
     ]
     trusted_base = ['reference serialiser in checks/c05.py', 'python json']
     required_classes = ['request', 'response/result', 'response/error', 'error', 'batch_request', 'batch_response', 'batch_error',
-                        'error_cls/PlainBase', 'error_cls/IndepBase', 'error_cls/CodedBase', 'edge/null-result', 'edge/absent-data', 'edge/null-data',
+                        'error_cls/PlainBase', 'error_cls/IndepBase', 'error_cls/CodedBase', 'error_cls/MetaBase', 'edge/null-result', 'edge/absent-data', 'edge/null-data',
                         'edge/empty-params', 'edge/code-0', 'edge/empty-message', 'batch_request/empty', 'batch_program/request', 'batch_program/response',
                         'batch_program/grown-after-serialisation', 'batch_program/not-strict', 'batch_program/compared', 'late-class']
 
